@@ -134,7 +134,7 @@ Theorem C02_no_coercion : forall a b,
   (forall o, arith_op o = true -> (is_number a && is_number b = false) -> binop o a b = Err) /\
   (forall o, order_op o = true -> N.eqb (kind_class a) (kind_class b) = false -> binop o a b = Err) /\
   (match b with VArr _ | VStr _ _ | VMap _ => False | _ => True end -> binop OIn a b = Err) /\
-  (match b with VInt _ _ | VStr _ _ | VUndef => False | _ => True end ->
+  (match b with VInt _ _ | VStr _ _ | VUndef => False | VBool _ => (match a with VMap _ => False | _ => True end) | _ => True end ->
    a <> VUndef -> get_item a b false = Err) /\
   (match a with VInt _ _ | VFloat _ => False | _ => True end ->
    forall g e, eval g e = Val a -> eval g (EUn UMinus e) = Err).
